@@ -50,6 +50,13 @@ func checkC10(R *Run) {
 		n := fname(rootFn(fn))
 		return n == "hotline.UploadFolderHandler" || n == "hotline.DownloadFolderHandler"
 	}, 12)
+	R.rule("fresh-decoder", "(as C01) restricted to the folder handlers: the per-item resume data is decoded into a value created for that item")
+	R.ruleFreshDecoder(func(fn *ssa.Function) bool {
+		n := fname(rootFn(fn))
+		return n == "hotline.DownloadFolderHandler" || n == "hotline.UploadFolderHandler"
+	})
+	R.rule("skip-sends-once", "in the folder upload's item loop, on the edge where the action written to the client equals 'next file' (item already complete) no further action word is written before the next item header is read")
+	R.ruleSkipSendsOnce()
 	R.ruleWalkFilterAgree()
 	R.floor("walk-filter-agree", 6)
 	R.floor("resume-skip", 1)
